@@ -588,12 +588,40 @@ func ruleReserveDefinesAnswer(c *Ctx, rule string) {
 	if fn == nil {
 		return
 	}
-	ins := callsLocal(fn, "sets.String).Insert")
+	ins := calls(fn, "sets.String).Insert")
 	if len(ins) == 0 {
 		c.undecided(rule, fn, "collection of reserved subnets", nil, "no Insert into the reserved-subnet set found")
 		return
 	}
 	set := recvOf(ins[0])
+	if h := ins[0].Parent(); h != fn {
+		// the collecting loop lives in a helper: the set is the helper's result
+		set = nil
+		for _, cs := range staticSites[h] {
+			if cs.Parent() != fn {
+				continue
+			}
+			for _, ret := range returns(h) {
+				for i := range ret.Results {
+					if rv := retVal(ret, i); rv == recvOf(ins[0]) || sameAccessOrValue(unspill(rv), recvOf(ins[0])) {
+						if len(ret.Results) == 1 {
+							set = cs
+						} else {
+							for _, ref := range *cs.Referrers() {
+								if ex, ok := ref.(*ssa.Extract); ok && ex.Index == i {
+									set = ex
+								}
+							}
+						}
+					}
+				}
+			}
+		}
+		if set == nil {
+			c.undecided(rule, fn, "collection of reserved subnets", ins[0], "the set filled in "+h.Name()+" does not come back as a result of its call")
+			return
+		}
+	}
 	some := guardEdges(fn, func(v ssa.Value) (bool, int) {
 		bo, ok := v.(*ssa.BinOp)
 		if !ok {
@@ -743,7 +771,7 @@ func ruleSizedPoolCountsAll(c *Ctx, rule string) {
 		return
 	}
 	var incs []ssa.Instruction
-	allInstrs(fn, func(in ssa.Instruction) {
+	allInstrsX(fn, func(in ssa.Instruction) {
 		bo, ok := in.(*ssa.BinOp)
 		if !ok || bo.Op != token.ADD {
 			return
@@ -763,8 +791,9 @@ func ruleSizedPoolCountsAll(c *Ctx, rule string) {
 		return
 	}
 	hdr := loopHeaderOf(incs[0])
+	host := incs[0].Parent() // getAvailableSubnet, or the helper the counting loop was moved into
 	// the edge on which the entry is NOT a reserved one (key != pool prefix)
-	inUse := guardEdges(fn, predNeq(func(v ssa.Value) bool { return pathEndsWith(v, "Key") }, func(v ssa.Value) bool {
+	inUse := guardEdges(host, predNeq(func(v ssa.Value) bool { return pathEndsWith(v, "Key") }, func(v ssa.Value) bool {
 		return dependsOn(v, func(x ssa.Value) bool { return isResultOf(x, 0, "(*KeyObj).PoolPrefix") })
 	}))
 	if len(inUse) == 0 {
@@ -773,8 +802,22 @@ func ruleSizedPoolCountsAll(c *Ctx, rule string) {
 	}
 	// values that are true whenever isPoolSizeDefined is: the parameter itself, or `isPoolSizeDefined || x` kept in a variable
 	// (a phi that is the constant true on the parameter's true edge and otherwise comes from blocks behind its false edge)
-	impliedBySized := func(v ssa.Value) bool {
+	var impliedBySized func(v ssa.Value) bool
+	impliedBySized = func(v ssa.Value) bool {
 		if v == ssa.Value(sized) {
+			return true
+		}
+		// a bool parameter of the helper that holds the loop: what the call sites pass
+		if q, isP := v.(*ssa.Parameter); isP && q.Parent() != fn {
+			acts := actualsOf(q)
+			if len(acts) == 0 {
+				return false
+			}
+			for _, a := range acts {
+				if !impliedBySized(a) {
+					return false
+				}
+			}
 			return true
 		}
 		ph, ok := v.(*ssa.Phi)
@@ -799,7 +842,7 @@ func ruleSizedPoolCountsAll(c *Ctx, rule string) {
 		}
 		return true
 	}
-	notSized := guardEdges(fn, negate(predBool(impliedBySized)))
+	notSized := guardEdges(host, negate(predBool(impliedBySized)))
 	for _, e := range inUse {
 		r := reachFromEdge(e, newCut().instr(incs...).edge(notSized...))
 		skipped := r.has(hdr.Instrs[0])
@@ -902,7 +945,24 @@ func ruleListedOnce(c *Ctx, rule string) {
 			}
 		})
 		if len(apps) == 0 {
-			c.undecided(rule, fn, "result appends", nil, "no append to the result inside a loop")
+			// a pre-sized result filled by index: one slot per iteration as long as the index varies with the loop
+			m := 0
+			allInstrsX(fn, func(in ssa.Instruction) {
+				st, ok := in.(*ssa.Store)
+				if !ok || loopHeaderOf(st) == nil {
+					return
+				}
+				ia, ok := st.Addr.(*ssa.IndexAddr)
+				if !ok || !types.Identical(ia.X.Type(), resT) {
+					return
+				}
+				m++
+				_, isConst := ia.Index.(*ssa.Const)
+				c.ob(rule, fn, "an entry is listed at most once", st, !isConst, "the result is filled by index assignment with the loop's own index: one slot per entry")
+			})
+			if m == 0 {
+				c.undecided(rule, fn, "result appends", nil, "neither an append to the result nor an index assignment into it inside a loop")
+			}
 			continue
 		}
 		for _, a := range apps {
@@ -1327,14 +1387,20 @@ func ruleGCDirsFromConfig(c *Ctx, rule string) {
 func ruleRecursionSharesVisited(c *Ctx, rule string) {
 	n := 0
 	for _, fn := range c.SrcFns {
-		if fn.Pkg == nil || !strings.HasSuffix(fn.Pkg.Pkg.Path(), fipPkg) || fn.Parent() == nil {
+		if fn.Pkg == nil || !strings.HasSuffix(fn.Pkg.Pkg.Path(), fipPkg) {
 			continue
 		}
-		// self calls of a closure: through the cell the closure is stored in
+		// self calls: of a closure through the cell the closure is stored in, of a named function / method directly
 		var self []*ssa.Call
 		allInstrs(fn, func(in ssa.Instruction) {
 			call, ok := in.(*ssa.Call)
 			if !ok {
+				return
+			}
+			if fn.Parent() == nil {
+				if call.Call.StaticCallee() == fn {
+					self = append(self, call)
+				}
 				return
 			}
 			ld, ok := call.Call.Value.(*ssa.UnOp)
@@ -1378,7 +1444,7 @@ func ruleRecursionSharesVisited(c *Ctx, rule string) {
 		}
 	}
 	if n == 0 {
-		c.undecided(rule, nil, "recursive closures of the ipam", nil, "no self-recursive closure found in pkg/ipam/floatingip (the range matching of ByKeyAndIPRanges is expected)")
+		c.undecided(rule, nil, "recursive closures of the ipam", nil, "no self-recursive closure or function found in pkg/ipam/floatingip (the range matching of ByKeyAndIPRanges is expected)")
 	}
 }
 
@@ -1477,13 +1543,16 @@ func ruleRangeSizeFormula(c *Ctx, rule string) {
 	}
 	empty := guardEdges(fn, func(v ssa.Value) (bool, int) {
 		bo, ok := v.(*ssa.BinOp)
-		if !ok || bo.Op != token.EQL {
+		if !ok || (bo.Op != token.EQL && bo.Op != token.NEQ) {
 			return false, 0
 		}
 		if call, isB := bo.X.(*ssa.Call); isB {
 			if b, ok := call.Call.Value.(*ssa.Builtin); ok && b.Name() == "len" {
 				if k, isC := constIntVal(bo.Y); isC && k == 0 {
-					return true, 0
+					if bo.Op == token.EQL {
+						return true, 0
+					}
+					return true, 1
 				}
 			}
 		}
